@@ -646,6 +646,7 @@ func formEval(c *ctx, vline string, fd formDesc, ops []setOp, dup, bad bool, cla
 			if repr {
 				r.Line(bl, common.B(balancedToks(p.toks)))
 				c.skelLine("form.Data.TokenReader", p.toks)
+				r.Line("wf "+common.EncToks(p.toks), common.B(wellFormed(p.out) == nil))
 			}
 			if !balancedToks(p.toks) {
 				r.Fail("well-formed", "form.Data/TokenReader/unbalanced", append(lines, r.Prop+" "+bl), describe())
